@@ -182,6 +182,7 @@ impl<'a> Evaluator<'a> {
         match p {
             Pat::Wild(_) | Pat::Rest(_) => PatM::Yes,
             Pat::Paren(pp) => self.pat_match(&pp.pat, v, env),
+            Pat::Type(pt) => self.pat_match(&pt.pat, v, env),
             Pat::Reference(r) => self.pat_match(&r.pat, v, env),
             Pat::Ident(pi) => {
                 let name = pi.ident.to_string();
@@ -417,6 +418,24 @@ impl<'a> Evaluator<'a> {
         Err(format!("no arm matches {}", v.show()))
     }
 
+    /// `match place.as_mut() { Some(x) => .. }` / `if let Some(x) = place.as_mut()`: `x` aliases the payload of
+    /// `place`, so what the arm did to `x` is written back.
+    fn alias_writeback(&self, scrutinee: &syn::Expr, pat: &syn::Pat, arm_env: &Env, env: &mut Env) {
+        let syn::Expr::MethodCall(mc) = scrutinee else { return };
+        if mc.method != "as_mut" {
+            return;
+        }
+        let Some(place) = self.place_of(&mc.receiver) else { return };
+        let syn::Pat::TupleStruct(ts) = pat else { return };
+        if ts.elems.len() != 1 || ts.path.segments.last().map(|s| s.ident.to_string()).as_deref() != Some("Some") {
+            return;
+        }
+        let syn::Pat::Ident(pi) = &ts.elems[0] else { return };
+        if let (Some(nv), Some(t)) = (arm_env.get(&pi.ident.to_string()).cloned(), place_get_mut(env, &place)) {
+            *t = Val::some(nv);
+        }
+    }
+
     pub fn eval_block(&self, b: &syn::Block, env: &mut Env) -> Result<Val, String> {
         let mut last = Val::Unit;
         for (i, s) in b.stmts.iter().enumerate() {
@@ -448,6 +467,18 @@ impl<'a> Evaluator<'a> {
                         last = v;
                     } else {
                         last = Val::Unit;
+                    }
+                }
+                syn::Stmt::Item(syn::Item::Fn(f)) => {
+                    // a nested fn is bound like a closure over its (typed) parameters
+                    let pats: Vec<String> = f.sig.inputs.iter().filter_map(|a| match a {
+                        syn::FnArg::Typed(t) => Some(tok(&t.pat)),
+                        _ => None,
+                    }).collect();
+                    let block = &f.block;
+                    let text = format!("|{}| {}", pats.join(","), quote::quote!(#block));
+                    if let Ok(cl) = syn::parse_str::<syn::ExprClosure>(&text) {
+                        env.insert(f.sig.ident.to_string(), Val::Closure(Box::new(cl), Box::new(Env::new())));
                     }
                 }
                 syn::Stmt::Item(_) => {}
@@ -672,6 +703,24 @@ impl<'a> Evaluator<'a> {
                     }
                     _ => {}
                 }
+                if matches!(&b.op, AddAssign(_) | SubAssign(_)) {
+                    // compound assignment: ints are computed, anything else goes through the hook `op:add_assign`
+                    let place = self.place_of(&b.left).ok_or_else(|| format!("compound assignment to non-place {}", tok(&b.left)))?;
+                    let l = self.eval(&b.left, env)?;
+                    let r = self.eval(&b.right, env)?;
+                    let nv = match (&l, &r, &b.op) {
+                        (Val::Int { v: x, input: false }, Val::Int { v: y, input: false }, AddAssign(_)) => Val::int(x.checked_add(*y).ok_or("constant arithmetic overflow")?),
+                        (Val::Int { v: x, input: false }, Val::Int { v: y, input: false }, SubAssign(_)) => Val::int(x.checked_sub(*y).ok_or("constant arithmetic overflow")?),
+                        (_, _, AddAssign(_)) => match (self.call_hook)(self, "op:add_assign", &[l.clone(), r.clone()]) {
+                            Some(v) => v?,
+                            None => return Err(format!("unsupported `+=` on {} , {}", l.show(), r.show())),
+                        },
+                        _ => return Err(format!("unsupported compound assignment {}", tok(b))),
+                    };
+                    let t = place_get_mut(env, &place).ok_or_else(|| format!("cannot resolve place {}", tok(&b.left)))?;
+                    *t = nv;
+                    return Ok(Val::Unit);
+                }
                 let l = self.eval(&b.left, env)?;
                 let r = self.eval(&b.right, env)?;
                 match (&l, &r) {
@@ -712,6 +761,14 @@ impl<'a> Evaluator<'a> {
                         }
                     }
                     (Val::Str(a), Val::Str(c)) if matches!(&b.op, Add(_)) => Ok(Val::Str(format!("{}{}", a, c))),
+                    (Val::Char(a), Val::Char(c)) if matches!(&b.op, Lt(_) | Le(_) | Gt(_) | Ge(_) | Eq(_) | Ne(_)) => Ok(Val::Bool(match &b.op {
+                        Lt(_) => a < c,
+                        Le(_) => a <= c,
+                        Gt(_) => a > c,
+                        Ge(_) => a >= c,
+                        Eq(_) => a == c,
+                        _ => a != c,
+                    })),
                     _ => match &b.op {
                         Add(_) if (self.call_hook)(self, "op:add", &[l.clone(), r.clone()]).is_some() => {
                             (self.call_hook)(self, "op:add", &[l.clone(), r.clone()]).unwrap()
@@ -738,6 +795,7 @@ impl<'a> Evaluator<'a> {
                         PatM::Yes => {
                             let r = self.eval_block(&i.then_branch, &mut e2);
                             merge_back_shadow_safe(env, &e2, &l.pat);
+                            self.alias_writeback(&l.expr, &l.pat, &e2, env);
                             r
                         }
                         PatM::No => match &i.else_branch {
@@ -790,6 +848,7 @@ impl<'a> Evaluator<'a> {
                 let (i, mut e2) = self.select_arm(m, &v, env)?;
                 let r = self.eval(&m.arms[i].body, &mut e2);
                 merge_back_shadow_safe(env, &e2, &m.arms[i].pat);
+                self.alias_writeback(&m.expr, &m.arms[i].pat, &e2, env);
                 r
             }
             Expr::Return(r) => {
@@ -810,7 +869,38 @@ impl<'a> Evaluator<'a> {
                     return r;
                 }
                 if let Some(Val::Closure(cl, cenv)) = env.get(&name).cloned() {
-                    return self.apply_closure(&syn::Expr::Closure(*cl), &args, &cenv);
+                    // a closure or nested fn called by name: it may call itself, and `&mut place` arguments are written back
+                    let mut e2 = (*cenv).clone();
+                    e2.insert(name.clone(), Val::Closure(cl.clone(), cenv.clone()));
+                    let mut pnames: Vec<Option<String>> = vec![];
+                    for (p, a) in cl.inputs.iter().zip(args.iter()) {
+                        pnames.push(match p {
+                            syn::Pat::Ident(pi) => Some(pi.ident.to_string()),
+                            _ => None,
+                        });
+                        match self.pat_match(p, a, &mut e2) {
+                            PatM::Yes => {}
+                            o => return Err(format!("closure param: {:?}", o)),
+                        }
+                    }
+                    let r = self.eval(&cl.body, &mut e2)?;
+                    for (pn, ae) in pnames.iter().zip(c.args.iter()) {
+                        let target = match ae {
+                            syn::Expr::Reference(rf) if rf.mutability.is_some() => self.place_of(&rf.expr),
+                            other => self.place_of(other),
+                        };
+                        if let (Some(pn), Some(place)) = (pn, target) {
+                            if let (Some(nv), Some(t)) = (e2.get(pn).cloned(), place_get_mut(env, &place)) {
+                                if matches!(nv, Val::List(_)) || matches!(ae, syn::Expr::Reference(rf) if rf.mutability.is_some()) {
+                                    *t = nv;
+                                }
+                            }
+                        }
+                    }
+                    return Ok(match r {
+                        Val::Ctor(n, mut p, _) if n == "$return" => p.pop().unwrap_or(Val::Unit),
+                        o => o,
+                    });
                 }
                 if let Some(tbl) = self.inline {
                     if let Some((params, body)) = tbl.get(&name) {
@@ -1093,7 +1183,14 @@ impl<'a> Evaluator<'a> {
                             for (pn, a) in params.iter().zip(mc.args.iter()) {
                                 e2.insert(pn.clone(), self.eval(a, env)?);
                             }
-                            return self.eval_fn_body(body, &mut e2);
+                            let r = self.eval_fn_body(body, &mut e2);
+                            // a `&mut self` method: write the receiver back
+                            if let (Some(place), Some(ns)) = (self.place_of(&mc.receiver), e2.get("self")) {
+                                if let Some(t) = place_get_mut(env, &place) {
+                                    *t = ns.clone();
+                                }
+                            }
+                            return r;
                         }
                     }
                 }
@@ -1150,6 +1247,8 @@ impl<'a> Evaluator<'a> {
                             self.eval(&mc.args[0], env)
                         }
                     }
+                    "unwrap_or_else" if is_some => Ok(inner.unwrap()),
+                    "unwrap_or_else" if is_none && mc.args.len() == 1 => self.apply_closure(&mc.args[0], &[], env),
                     "unwrap_or_default" if is_some => Ok(inner.unwrap()),
                     "ok" if matches!(&recv, Val::Ctor(n, ..) if n == "Ok" || n == "Err") => match recv {
                         Val::Ctor(n, p, _) if n == "Ok" => Ok(Val::some(p.into_iter().next().unwrap_or(Val::Unit))),
